@@ -91,6 +91,8 @@ def run_check(chk, argv):
            "traces_validated_against_impl": 0, "distribution": {}}
     if harness_ok and driver_ok:
         try:
+            # a check may search harder for a failing input when a proof obligation or tie is broken
+            chk.proof_broken = list(broken)
             res = chk.correspond(tier, seed, rng)
         except Broken as b:
             broken.append("correspondence run broke: %s: %s" % (b.what, b.detail[-1500:]))
